@@ -210,7 +210,8 @@ def evaluate(r, trains, edges, name, kw, be, rank=()):
     if name == "sync":
         for a in range(n):
             Me[a, a] = 1.0
-    if M.shape != (n, n) or not np.all(np.abs(M - Me) <= TOL) or not np.array_equal(M, M.T):
+    if M.shape != (n, n) or not np.all(np.abs(M - Me) <= TOL) or \
+            not np.all(np.abs(M - M.T) <= TOL):
         r.violation(ID, "matrix", be, "matrix/%s/%s/%s" % (name, be, cls), case, Me, M,
                     "distance matrix does not contain exactly the bivariate values / is not "
                     "symmetric / wrong diagonal", rank)
